@@ -146,15 +146,16 @@ def parseSeg? (ts : List String) : Option Seg :=
 def parseOp? (line : String) : Option Op :=
   match words line with
   | ["case", _] => some .case
-  | ["spawn", a, sup, name] => do
+  | "spawn" :: a :: sup :: name :: kind => do
+    let loc := kind == ["kind=local"]
     let a ← a.toNat?
     let name ← match name.splitOn "=" with
       | ["name", "-"] => some none
       | ["name", n] => some (some n)
       | _ => none
     match sup.splitOn "=" with
-    | ["sup", "-"] => pure (.spawn a none name)
-    | ["sup", p] => do let p ← p.toNat?; pure (.spawn a (some p) name)
+    | ["sup", "-"] => pure (.spawn a none name loc)
+    | ["sup", p] => do let p ← p.toNat?; pure (.spawn a (some p) name loc)
     | _ => none
   | ["wait", w, a] => do pure (.wait (← w.toNat?) (← a.toNat?))
   | ["pollwait", w] => w.toNat?.map .pollWait
@@ -225,7 +226,7 @@ def parseCallRes? (t : String) : Option CallRes :=
 (filled from `wait w a` / `call k a` op lines). -/
 def opActor (waits calls : List (Nat × Nat)) : Op → Nat
   | .case => 0
-  | .spawn a _ _ | .pollSpawn a | .dropSpawn a | .poll a | .abort a | .resume a _ | .send a _
+  | .spawn a _ _ _ | .pollSpawn a | .dropSpawn a | .poll a | .abort a | .resume a _ | .send a _
   | .stop a _ | .kill a | .drain a | .wait _ a | .call _ a => a
   | .pollWait w => ((waits.find? (·.1 = w)).map (·.2)).getD 0
   | .pollCall k => ((calls.find? (·.1 = k)).map (·.2)).getD 0
@@ -255,7 +256,7 @@ def noteEvents (tgt : Nat) (op : Op) (note : String) : Option (List (Nat × Ev))
     | .stop a r => pure [(a, .stopRet false (.ofUser r) (x == "Ok"))]
     | .kill a => pure [(a, .killRet false (x == "Ok"))]
     | .drain a => pure [(a, .drainRet (x == "Ok"))]
-    | .spawn a _ _ | .pollSpawn a => do pure [(a, .spawnRet (← parseSpawnRet? x))]
+    | .spawn a _ _ _ | .pollSpawn a => do pure [(a, .spawnRet (← parseSpawnRet? x))]
     | _ => none
   | "emit" :: p :: rest => do
     let p ← p.toNat?
@@ -369,7 +370,7 @@ def step (which : Prop3) (st : St) (opLine impl : String) : St × StepOut :=
     let st := if op = .case then ({ hist := st.hist } : St) else st
     -- names / groups are known to the harness from the op line
     let names := match op with
-      | .spawn _ _ (some n) => addNew st.names n
+      | .spawn _ _ (some n) _ => addNew st.names n
       | _ => st.names
     let groups := match op with
       | .resume _ sg => sg.fx.foldl (fun acc f => match f with | .joinGroup g => addNew acc g | _ => acc) st.groups
@@ -386,6 +387,8 @@ def step (which : Prop3) (st : St) (opLine impl : String) : St × StepOut :=
       | n :: _ => if n == "-" then [] else n.splitOn "; "
       | [] => []
     let pre : List (Nat × Ev) := match op with
+      | .spawn a _ _ true =>   -- the op line says the actor is thread-local (and it was created)
+        if notes.any (fun n => hasSub n "enter") then [(a, .isLocal)] else []
       | .abort a => if notes.contains "notask" then [] else [(a, .aborted)]
       | .dropSpawn a => if notes.contains "nospawn" then [] else [(a, .dropped)]
       | _ => []
@@ -423,7 +426,7 @@ def step (which : Prop3) (st : St) (opLine impl : String) : St × StepOut :=
     -- residue oracle, driver-level clauses about the registry: a name that the implementation showed as free
     -- can be taken; a name clash leaves every observable field as it was
     let fails := match which, op with
-      | .residue, .spawn _ _ (some n) =>
+      | .residue, .spawn _ _ (some n) _ =>
         let prevTabs := match st.prev.splitOn " | " with
           | _ :: _ :: _ :: f :: _ => parseTables f
           | _ => []
@@ -451,7 +454,7 @@ def step (which : Prop3) (st : St) (opLine impl : String) : St × StepOut :=
                 || ((match op with | .kill _ | .stop _ _ => true | _ => false) && hasSub impl "ret Ok" && (openCb || filled ≥ 1))
                 || hasSub impl "fx killself Ok" || hasSub impl "fx stopself"
       | .c04 => hasSub impl "emit" || hasSub impl "ret Err(" || hasSub impl "join" || hasSub impl "cancelled"
-      | .residue => ((match op with | .spawn _ _ _ | .pollSpawn _ => true | _ => false) && hasSub impl "ret Err(")
+      | .residue => ((match op with | .spawn _ _ _ _ | .pollSpawn _ => true | _ => false) && hasSub impl "ret Err(")
                 || ((match op with | .dropSpawn _ => true | _ => false) && !hasSub impl "nospawn")
                 || failedSpawn
     ({ w := w', mons, hist, names, groups, waits, calls, prev := impl },
